@@ -30,9 +30,126 @@ fn frame_brief(f: &Frame) -> String {
     format!("F({})bin={}", fields.join(","), show_opt(f.binary()))
 }
 
+/// Every way the standard library lets a caller walk an iterator (many of which an implementation may override:
+/// fold, rfold, nth, nth_back, last, count, try_fold ... and everything built on them) must give the sequence that
+/// repeated `next()` gives, or its reverse.  Returns a description of the first walk that differs.
+fn walk_differs<I, M, S>(mk: M, show: S) -> Option<String>
+where
+    I: DoubleEndedIterator,
+    M: Fn() -> I,
+    S: Fn(I::Item) -> String,
+{
+    let mut base = Vec::new();
+    let mut it = mk();
+    while let Some(x) = it.next() {
+        base.push(show(x));
+    }
+    let rev: Vec<String> = base.iter().rev().cloned().collect();
+    let n = base.len();
+    let mut walks: Vec<(&str, Vec<String>, &Vec<String>)> = Vec::new();
+    walks.push(("fold", mk().fold(Vec::new(), |mut a, x| { a.push(show(x)); a }), &base));
+    let mut v = Vec::new();
+    mk().for_each(|x| v.push(show(x)));
+    walks.push(("for_each", v, &base));
+    walks.push(("collect", mk().map(&show).collect(), &base));
+    walks.push(("rfold", mk().rfold(Vec::new(), |mut a, x| { a.push(show(x)); a }), &rev));
+    let mut v = Vec::new();
+    mk().rev().for_each(|x| v.push(show(x)));
+    walks.push(("rev().for_each", v, &rev));
+    walks.push(("rev().collect", mk().rev().map(&show).collect(), &rev));
+    let mut v = Vec::new();
+    let mut it = mk();
+    while let Some(x) = it.next_back() {
+        v.push(show(x));
+    }
+    walks.push(("next_back", v, &rev));
+    let mut v = Vec::new();
+    let _ = mk().try_for_each(|x| { v.push(show(x)); Some(()) });
+    walks.push(("try_for_each", v, &base));
+    let mut v = Vec::new();
+    let _ = mk().rev().try_for_each(|x| { v.push(show(x)); Some(()) });
+    walks.push(("rev().try_for_each", v, &rev));
+    walks.push(("skip(1)", mk().skip(1).map(&show).collect(), &base));
+    walks.push(("step_by(2)", mk().step_by(2).map(&show).collect(), &base));
+    walks.push(("chain", mk().take(1).chain(mk().skip(1)).map(&show).collect(), &base));
+    for (name, got, want) in walks {
+        let want: Vec<String> = match name {
+            "skip(1)" => want.iter().skip(1).cloned().collect(),
+            "step_by(2)" => want.iter().step_by(2).cloned().collect(),
+            _ => want.clone(),
+        };
+        if got != want {
+            return Some(format!("{name} gives [{}] where next() gives [{}]", got.join(","), base.join(",")));
+        }
+    }
+    if mk().count() != n || mk().rev().count() != n || mk().size_hint().0 > n || mk().size_hint().1.map(|h| h < n).unwrap_or(false) {
+        return Some(format!("count/len differ from the {n} items next() gives"));
+    }
+    if mk().last().map(&show) != base.last().cloned() {
+        return Some(format!("last() differs from the last item next() gives ([{}])", base.join(",")));
+    }
+    if mk().rev().last().map(&show) != base.first().cloned() {
+        return Some(format!("rev().last() differs from the first item next() gives ([{}])", base.join(",")));
+    }
+    for k in 0..=n {
+        if mk().nth(k).map(&show) != base.get(k).cloned() || mk().nth_back(k).map(&show) != rev.get(k).cloned() {
+            return Some(format!("nth({k}) / nth_back({k}) differ from position {k} of what next() gives ([{}])", base.join(",")));
+        }
+    }
+    None
+}
+
+fn collections_differ(resp: &Response) -> Option<String> {
+    let show_ref = |x: Result<&Frame, &mpd_protocol::response::Error>| match x {
+        Ok(f) => frame_brief(f),
+        Err(e) => format!("E{}", e.code),
+    };
+    if let Some(d) = walk_differs(|| resp.frames(), show_ref) {
+        return Some(format!("Response::frames(): {d}"));
+    }
+    if let Some(d) = walk_differs(|| resp.into_iter(), show_ref) {
+        return Some(format!("(&Response).into_iter(): {d}"));
+    }
+    let show_own = |x: Result<Frame, mpd_protocol::response::Error>| match x {
+        Ok(f) => frame_brief(&f),
+        Err(e) => format!("E{}", e.code),
+    };
+    if let Some(d) = walk_differs(|| resp.clone().into_iter(), show_own) {
+        return Some(format!("Response::into_iter(): {d}"));
+    }
+    for f in resp.frames().flatten() {
+        if let Some(d) = walk_differs(|| f.fields(), |p| show_pair(Some(p))) {
+            return Some(format!("Frame::fields(): {d}"));
+        }
+        if let Some(d) = walk_differs(|| f.into_iter(), |p| show_pair(Some(p))) {
+            return Some(format!("(&Frame).into_iter(): {d}"));
+        }
+        // the owning iterator is double-ended but not exact-size: walked by hand
+        let base: Vec<String> = f.fields().map(|p| show_pair(Some(p))).collect();
+        let own = |p: (std::sync::Arc<str>, String)| format!("{}:{}", hex(p.0.as_bytes()), hex(p.1.as_bytes()));
+        let fwd: Vec<String> = f.clone().into_iter().map(own).collect();
+        let mut bwd: Vec<String> = f.clone().into_iter().rev().map(own).collect();
+        bwd.reverse();
+        let folded: Vec<String> = f.clone().into_iter().fold(Vec::new(), |mut a, x| { a.push(own(x)); a });
+        let mut rfolded: Vec<String> = f.clone().into_iter().rfold(Vec::new(), |mut a, x| { a.push(own(x)); a });
+        rfolded.reverse();
+        if fwd != base || bwd != base || folded != base || rfolded != base {
+            return Some(format!("Frame::into_iter(): a walk differs from fields() [{}]", base.join(",")));
+        }
+        // emptiness is "no fields and no payload", whatever the payload's length
+        if f.is_empty() != (f.fields_len() == 0 && !f.has_binary()) || f.has_binary() != f.binary().is_some() {
+            return Some(format!("Frame::is_empty()={} with {} fields and has_binary()={} / binary().is_some()={}", f.is_empty(), f.fields_len(), f.has_binary(), f.binary().is_some()));
+        }
+    }
+    None
+}
+
 pub fn run(toks: &[&str]) -> String {
     let wire = unhex(toks[1]);
     let Some(resp) = response_of_wire(&wire) else { return "noresponse".into() };
+    if let Some(d) = collections_differ(&resp) {
+        return format!("INCONSISTENT {d}");
+    }
     match toks[0] {
         "frame" => {
             let Some(Ok(mut frame)) = resp.into_iter().next() else { return "noframe".into() };
